@@ -114,9 +114,6 @@ def timespan(days=0, hours=0, minutes=0, seconds=0, milliseconds=0, microseconds
             milliseconds * 1000 + microseconds)
 
 
-SPAN_LIMIT = 1000000000 * DAY_US      # documented nowhere; the host type holds |days| < 10^9
-
-
 def compare(op, a, b):
     """'equality and ordering compare instants'."""
     x, y = a[0], b[0]
